@@ -344,11 +344,15 @@ def _method(world, rec, ctx):
     return _bind_result(world, rec, res, "method", _depth(world, rec["h"]))
 
 
-def _colspecs(world, specs):
+def _colspecs(world, specs, tab=None):
     out = []
     for s in specs:
         if s["k"] == "str":
             out.append(s["v"])
+        elif s["k"] == "col":
+            if tab is None or s["j"] >= len(tab.cols()):
+                raise SkipOp("no such column")
+            out.append(tab.cols()[s["j"]])
         elif s["k"] == "h":
             out.append(world.obj(s["h"], "vec"))
         elif s["k"] == "vec":
@@ -368,7 +372,7 @@ def _sort(world, rec, ctx):
     if not world.get(rec["h"]).is_table:
         res = o.sort_by(reverse=rec.get("reverse", False), na_last=rec.get("na_last", True))
     else:
-        by = _one_or_list(_colspecs(world, rec["by"]), rec.get("single"))
+        by = _one_or_list(_colspecs(world, rec["by"], o), rec.get("single"))
         res = o.sort_by(by, reverse=rec.get("reverse", False), na_last=rec.get("na_last", True))
     return _bind_result(world, rec, res, "sort", _depth(world, rec["h"]))
 
@@ -377,8 +381,8 @@ def _sort(world, rec, ctx):
 def _join(world, rec, ctx):
     l = world.obj(rec["h"], "tab")
     r = world.obj(rec["other"], "tab")
-    lon = _one_or_list(_colspecs(world, rec["lon"]), rec.get("single"))
-    ron = _one_or_list(_colspecs(world, rec["ron"]), rec.get("single"))
+    lon = _one_or_list(_colspecs(world, rec["lon"], l), rec.get("single"))
+    ron = _one_or_list(_colspecs(world, rec["ron"], r), rec.get("single"))
     kw = {}
     if "expect" in rec:
         kw["expect"] = rec["expect"]
@@ -400,15 +404,15 @@ def _agg(world, rec, ctx):
     kw = {}
     for k in ("sum_over", "mean_over", "min_over", "max_over", "stdev_over", "count_over"):
         if k in rec:
-            kw[k] = _one_or_list(_colspecs(world, rec[k]), rec.get("single"))
+            kw[k] = _one_or_list(_colspecs(world, rec[k], t), rec.get("single"))
     if "apply" in rec:
         ap = {}
         for a in rec["apply"]:
             f = FFunc(_APPLY[a["f"]], ctx.ticker)
             ctx.ffuncs.append((a["name"], f))
-            ap[a["name"]] = (_colspecs(world, [a["col"]])[0], f)
+            ap[a["name"]] = (_colspecs(world, [a["col"]], t)[0], f)
         kw["apply"] = ap
-    over = _one_or_list(_colspecs(world, rec["over"]), rec.get("single"))
+    over = _one_or_list(_colspecs(world, rec["over"], t), rec.get("single"))
     res = getattr(t, rec["fn"])(over, **kw)
     return _bind_result(world, rec, res, rec["fn"], _depth(world, rec["h"]))
 
